@@ -101,7 +101,7 @@ def main(tier, replay=None):
         designlevel.codec_design(rep, "U_small depth1 dec same-schema", depth=1, caps=(1, 5), leafset="small",
                                  evo=0, modes=("dec",), invariants=inv, properties=())
     else:
-        designlevel.codec_design(rep, "U_small depth2 dec same-schema", depth=2, caps=(1, 3, 5), leafset="small",
+        designlevel.codec_design(rep, "U_small depth2 dec same-schema (leaf uint3)", depth=2, caps=(1, 5), leafset="tiny",
                                  evo=0, modes=("dec",), invariants=inv, properties=())
         designlevel.codec_design(rep, "U_small depth1 wide dec", depth=1, caps=(1, 2, 6), leafset="wide",
                                  evo=0, modes=("dec",), invariants=inv, properties=())
